@@ -138,7 +138,7 @@ Proof.
 Qed.
 
 Lemma slice_ok s a b k : Inv s -> valid_op (m_live s) (Slice a b k) = true ->
-  m_slice s a b k = snd (spec_step (m_live s) (Slice a b k)).
+  m_slice s a b k = snd (spec_step1 (m_live s) (Slice a b k)).
 Proof.
   intros [H _] V. pose proof (Inv0_nodup s H) as ND.
   assert (G : forall k', 1 <= k' ->
@@ -168,7 +168,7 @@ Proof.
       - replace (Nat.max start stop) with stop by lia. reflexivity.
       - replace (Nat.max start stop - start) with 0 by lia. replace (stop - start) with 0 by lia. reflexivity. }
     rewrite P. apply from_list_nodup. apply positions_nodup; [exact ND|exact Hk|]. subst stop. fold n. lia. }
-  unfold m_slice. destruct k as [[|k]|]; [discriminate| |]; cbn [spec_step snd].
+  unfold m_slice. destruct k as [[|k]|]; [discriminate| |]; cbn [spec_step1 snd].
   - rewrite (G (S k)) by lia. reflexivity.
   - rewrite (G 1) by lia. reflexivity.
 Qed.
